@@ -163,6 +163,23 @@ def run(program, rep, tier):
                                     or ex.payload.text != 'self._cache'):
             bad = bad or (ex.node, '__call__ does not return the cached '
                           'object: accesses return different objects')
+    # the cached VALUE is never inspected: whatever load() returned - None
+    # included - is what every access returns
+    for n_ in ast.walk(f.node):
+        t_ = None
+        if isinstance(n_, ast.Assert):
+            t_ = n_.test
+        elif isinstance(n_, ast.If) and any(isinstance(x, ast.Raise)
+                                            for s in n_.body
+                                            for x in ast.walk(s)):
+            t_ = n_.test
+        if t_ is not None and any(norm(x) == 'self._cache'
+                                  for x in ast.walk(t_)):
+            bad = bad or (n_, '__call__ raises depending on the cached value '
+                          f'({norm(t_)}): a handle whose load() returns None '
+                          '(or another rejected value) loads once and then '
+                          'fails on every access instead of returning the '
+                          'identical cached object')
     rep.floor('C12.gate', 'paths of __call__ that load', nload, 1)
     rep.check(bad is None, 'C12.gate', f.where,
               bad[0] if bad else 'if not self._cached: ...',
